@@ -209,7 +209,8 @@ def run(ctx):
         del walks
         check_executions(ctx, binary, execs, "graph%d" % n)
         count_nops(ctx, "graph%d" % n)
-        if ctx.notes.get("ops_refused_graph%d" % n):
+        # (when the implementation misbehaves its real state leaves the model's, and refusals are a consequence)
+        if ctx.notes.get("ops_refused_graph%d" % n) and not ctx.violations and not ctx.known_hits:
             ctx.broken.append("driver refused %d operations generated from the %s state graph (domain of driver and "
                               "specification differ)" % (ctx.notes["ops_refused_graph%d" % n], cfg))
         del execs
